@@ -100,6 +100,141 @@ def ens_find_changed_iter(I, env, res):
     return z3.And(frame, reported == z3.Or(was, z3.And(stat_differs, content_differs)), z3.If(stat_differs, refreshed, kept))
 
 
+# ------------------------------------------------------------------ watched set: _paths is a subset of keys(_file_data)
+
+
+def setup_watch_iter(I):
+    self = I.make(TObj(FW.FileSystemWatcher), "self")
+    path = I.make(TStr(), "path")
+    fd = I.getattr(self, "_file_data")
+    watched = z3.Select(I.getattr(self, "_paths").t, path.t)
+    has = I.contains(fd, path)
+    # representation invariant on entry
+    I.ctx.assume(z3.Implies(watched, has))
+    return {"args": [], "locals": {"self": self, "path": path, "paths": I.make(TSeq(TStr()), "paths")}, "self": self, "path": path, "watched": watched, "has0": has,
+            "p0": I.getattr(self, "_paths").t}
+
+
+def ens_add_iter(I, env, res):
+    """after the iteration the path has an entry (None for a new path, the old data otherwise) and the
+    watched set itself is not touched by the scan"""
+    fd = I.getattr(env["self"], "_file_data")
+    return z3.And(I.contains(fd, env["path"]), I.getattr(env["self"], "_paths").t == env["p0"])
+
+
+def ens_remove_iter(I, env, res):
+    """after the iteration the path has no entry"""
+    fd = I.getattr(env["self"], "_file_data")
+    return z3.And(z3.Not(I.contains(fd, env["path"])), I.getattr(env["self"], "_paths").t == env["p0"])
+
+
+def setup_watch_tail(I):
+    self = I.make(TObj(FW.FileSystemWatcher), "self")
+    paths = I.make(TSeq(TStr()), "paths")
+    return {"args": [], "locals": {"self": self, "paths": paths}, "self": self, "paths": paths, "p0": I.getattr(self, "_paths").t}
+
+
+def ens_add_tail(I, env, res):
+    x = z3.Const("p", StrS)
+    p1 = I.getattr(env["self"], "_paths").t
+    return z3.ForAll([x], z3.Select(p1, x) == z3.Or(z3.Select(env["p0"], x), z3.Contains(env["paths"].t, z3.Unit(x))))
+
+
+def ens_remove_tail(I, env, res):
+    x = z3.Const("p", StrS)
+    p1 = I.getattr(env["self"], "_paths").t
+    return z3.ForAll([x], z3.Select(p1, x) == z3.And(z3.Select(env["p0"], x), z3.Not(z3.Contains(env["paths"].t, z3.Unit(x)))))
+
+
+def watch_set_targets():
+    mk = lambda id, fn, **kw: Target(id, "mypy.fswatcher:FileSystemWatcher." + fn, overrides=OV, field_types=FT, raises=(), **kw)
+    return [
+        mk("watch.add_watched_paths.iteration", "add_watched_paths", setup=setup_watch_iter, loop_body=("for path in paths", None), ensures=[("path-gets-an-entry", ens_add_iter)]),
+        mk("watch.add_watched_paths.tail", "add_watched_paths", setup=setup_watch_tail, start_at="self._paths |= set(paths)", ensures=[("watched-set-is-the-union", ens_add_tail)]),
+        mk("watch.remove_watched_paths.iteration", "remove_watched_paths", setup=setup_watch_iter, loop_body=("for path in paths", None), ensures=[("entry-removed", ens_remove_iter)]),
+        mk("watch.remove_watched_paths.tail", "remove_watched_paths", setup=setup_watch_tail, start_at="self._paths -= set(paths)", ensures=[("watched-set-is-the-difference", ens_remove_tail)]),
+    ]
+
+
+# ------------------------------------------------------------------ Errors.clear_errors_in_targets
+
+from mypy.errors import ErrorInfo, Errors  # noqa: E402
+from . import errs as ERRS  # noqa: E402
+
+CE_FT = dict(ERRS.FIELD_TYPES)
+CE_FT.update({
+    ("ErrorInfo", "target"): TOpt(TStr()), ("ErrorInfo", "blocker"): TBool(), ("ErrorInfo", "only_once"): TBool(), ("ErrorInfo", "message"): TStr(),
+    ("Errors", "only_once_messages"): TSet(TStr()), ("Errors", "has_blockers"): TSet(TStr()),
+    ("Errors", "error_info_map"): TLDict(TStr(), TLList(TObj(ErrorInfo))),
+})
+
+
+def setup_clear_iter(I):
+    self = I.make(TObj(Errors), "self")
+    info = I.make(TObj(ErrorInfo), "info")
+    targets = I.make(TSet(TOpt(TStr())), "targets") if False else I.make(TSet(TStr()), "targets")
+    hb = I.make(TBool(), "has_blocker")
+    new_errors = SList([])
+    once = I.getattr(self, "only_once_messages")
+    tgt = I.getattr(info, "target")
+    # class invariant of Errors: the message of every recorded only-once error is in only_once_messages
+    I.ctx.assume(z3.Implies(I.getattr(info, "only_once").t, z3.Select(once.t, I.getattr(info, "message").t)))
+    return {"args": [], "locals": {"self": self, "info": info, "targets": targets, "has_blocker": hb, "new_errors": new_errors, "path": I.make(TStr(), "path")},
+            "self": self, "info": info, "targets": targets, "hb0": hb.t, "new_errors": new_errors, "once0": once.t}
+
+
+def ens_clear_iter(I, env, res):
+    """one recorded error: kept (appended, in order) <=> its target is not being re-checked; a kept
+    blocker keeps the file blocked; a dropped only-once message may be reported again"""
+    info = env["info"]
+    tgt = I.getattr(info, "target")
+    in_targets = z3.And(z3.Not(isnone(tgt)), z3.Select(env["targets"].t, term(tgt)))
+    kept = env["new_errors"].items
+    loc = env["__locals"]
+    hb1 = loc["has_blocker"]
+    once1 = I.getattr(env["self"], "only_once_messages").t
+    msg = I.getattr(info, "message").t
+    x = z3.Const("other_msg", StrS)
+    dropped_once = z3.And(in_targets, I.getattr(info, "only_once").t)
+    once_ok = z3.ForAll([x], z3.Select(once1, x) == z3.And(z3.Select(env["once0"], x), z3.Not(z3.And(dropped_once, x == msg))))
+    if len(kept) > 1 or (kept and kept[0] is not info):
+        return z3.BoolVal(False)
+    is_kept = z3.BoolVal(len(kept) == 1)
+    return z3.And(is_kept == z3.Not(in_targets), ival(hb1) == ival(SBool(z3.Or(env["hb0"], z3.And(z3.Not(in_targets), I.getattr(info, "blocker").t)))), once_ok)
+
+
+def setup_clear_tail(I):
+    self = I.make(TObj(Errors), "self")
+    path = I.make(TStr(), "path")
+    hb = I.make(TBool(), "has_blocker")
+    new_errors = I.make(TLList(TObj(ErrorInfo)), "new_errors")
+    return {"args": [], "locals": {"self": self, "path": path, "has_blocker": hb, "new_errors": new_errors, "targets": I.make(TSet(TStr()), "targets")},
+            "self": self, "path": path, "hb": hb.t, "new_errors": new_errors, "blk0": I.getattr(self, "has_blockers").t}
+
+
+def ens_clear_tail(I, env, res):
+    """after the scan: the file's list IS the kept list; the file stays in has_blockers only if a kept
+    error is a blocker; other files' blocked status is untouched"""
+    self, path = env["self"], env["path"]
+    cur = I.subscript(I.getattr(self, "error_info_map"), path)
+    blk1 = I.getattr(self, "has_blockers").t
+    x = z3.Const("other_file", StrS)
+    frame = z3.ForAll([x], z3.Implies(x != path.t, z3.Select(blk1, x) == z3.Select(env["blk0"], x)))
+    return z3.And(z3.BoolVal(cur is env["new_errors"]), z3.Select(blk1, path.t) == z3.And(z3.Select(env["blk0"], path.t), env["hb"]), frame)
+
+
+def clear_targets():
+    return [
+        Target("clear.errors_in_targets.iteration", "mypy.errors:Errors.clear_errors_in_targets", setup_clear_iter,
+               loop_body=("for info in self.error_info_map[path]", None), ensures=[("kept-iff-target-not-rechecked", ens_clear_iter)],
+               raises=(), overrides=ERRS.OVERRIDES if hasattr(ERRS, "OVERRIDES") else {}, field_types=CE_FT,
+               note="one generic iteration of the scan; requires the Errors class invariant tying only_once errors to only_once_messages"),
+        Target("clear.errors_in_targets.tail", "mypy.errors:Errors.clear_errors_in_targets", setup_clear_tail,
+               start_at="self.error_info_map[path] = new_errors", ensures=[("list-replaced-and-blocked-status-exact", ens_clear_tail)],
+               raises=(), field_types=CE_FT, note="the statements after the scan, from arbitrary scan results"),
+    ]
+
+
 def targets(tier):
     return [
         Target("watch.find_changed.iteration", "mypy.fswatcher:FileSystemWatcher._find_changed", setup_find_changed_iter,
@@ -107,4 +242,4 @@ def targets(tier):
                raises=(), overrides=OV, field_types=FT,
                note="one generic iteration (the loop touches only `path`'s entry and membership: the frame is part of the postcondition); "
                     "the file system is an arbitrary function; equal (size, whole-second mtime) => unchanged is mypy's documented assumption"),
-    ]
+    ] + watch_set_targets() + clear_targets()
